@@ -62,7 +62,7 @@ def gen_model_case(rng: random.Random, tier: str, backends=('dict',)) -> dict:
         kind = rng.choices(
             ['append', 'store', 'expunge', 'uidexpunge', 'copy', 'move',
              'fetch', 'reselect', 'noop'],
-            [5, 6, 3, 2, 2, 2, 4, 1, 1])[0]
+            [5, 6, 3, 2, 2, 2, 4, 2, 1])[0]
         uid = rng.random() < 0.45
         the_set = uid_set(rng, 101, hi + 1) if uid else seq_set(rng, maxn + 1)
         if duo and rng.random() < 0.3:
@@ -98,14 +98,25 @@ def gen_model_case(rng: random.Random, tier: str, backends=('dict',)) -> dict:
                    'op': rng.choice(['+', '+', '-', '']),
                    'flags': flag_list(rng, KEYWORDS),
                    'silent': rng.random() < 0.3}
+            if rng.random() < 0.2:
+                # keywords and nothing else: on maildir the flag letters of
+                # such a message translate to nothing in a folder without
+                # that keyword
+                act['flags'] = rng.sample(list(KEYWORDS),
+                                          rng.randint(1, min(2, len(KEYWORDS))))
+                act['op'] = rng.choice(['', '', '+'])
         elif kind == 'expunge':
             act = {'kind': 'expunge'}
         elif kind == 'uidexpunge':
             act = {'kind': 'expunge', 'uid_set': uid_set(rng, 101, hi + 1)}
         elif kind in ('copy', 'move'):
+            # towards the other mailbox most of the time, so that messages
+            # travel there and back again
             act = {'kind': kind, 'uid': uid, 'set': the_set,
-                   'mailbox': rng.choice(['Other', 'Other', 'INBOX',
-                                          'Missing'])}
+                   'mailbox': rng.choice(
+                       ['Other', 'Other', 'INBOX', 'Missing']
+                       if selected == 'INBOX' else
+                       ['INBOX', 'INBOX', 'Other', 'Missing'])}
             hi += 3
             maxn += 2
         elif kind == 'fetch':
@@ -127,6 +138,30 @@ def gen_model_case(rng: random.Random, tier: str, backends=('dict',)) -> dict:
                 acts.append({'sess': p, 'kind': 'noop'})
         rng.shuffle(acts)
         steps.append({'actions': acts, 'sched_seed': maybe_seed(rng, 0.4)})
+    if rng.random() < 0.2:
+        # there and back again: messages whose only flags are keywords (on
+        # maildir: letters that mean something in INBOX and nothing in the
+        # other folder) travel to the other mailbox and return
+        def one(act):
+            act['sess'] = 0
+            steps.append({'actions': [act], 'sched_seed': None})
+        away = 'Other' if selected == 'INBOX' else 'INBOX'
+        one({'kind': 'append', 'mailbox': selected, 'literal': 'lit',
+             'msgs': [{'data': make_message(t), 'token': t}
+                      for t in (tokens.take(), tokens.take())]})
+        one({'kind': 'store', 'uid': False, 'set': rng.choice(['1:*', '*']),
+             'op': '', 'flags': rng.sample(list(KEYWORDS), rng.randint(1, 2)),
+             'silent': False})
+        one({'kind': rng.choice(['move', 'copy']), 'uid': False,
+             'set': rng.choice(['1:*', '*']), 'mailbox': away})
+        one({'kind': 'close'})
+        one({'kind': 'select', 'mailbox': away})
+        one({'kind': rng.choice(['move', 'move', 'copy']), 'uid': False,
+             'set': '1:*', 'mailbox': selected})
+        one({'kind': 'close'})
+        one({'kind': 'select', 'mailbox': selected})
+        one({'kind': 'fetch', 'uid': False, 'set': '1:*',
+             'attrs': ['FLAGS']})
     case = {'config': cfg, 'steps': steps}
     if duo:
         case['duo'] = True
